@@ -141,8 +141,22 @@ func ruleC11LazyOnce(p *Prog, a *Anchors, r *Report) {
 	n := 0
 	ctxPtr := types.NewPointer(a.ExecCtx)
 	for _, f := range p.inPkgFuncsSorted(a.ExecReach()) {
-		if f.Signature.Recv() == nil || paramOfType(f, ctxPtr) == nil || !strings.HasPrefix(f.Name(), "Execute") {
+		if f.Signature.Recv() == nil || paramOfType(f, ctxPtr) == nil {
 			continue
+		}
+		// (the node's Execute, or a method of a node that runs only at execution time: the lazy branch as a helper)
+		if !strings.HasPrefix(f.Name(), "Execute") {
+			isNode := false
+			if rn := structOf(f.Signature.Recv().Type()); rn != nil {
+				for _, nt := range a.NodeTypes {
+					if nt == rn {
+						isNode = true
+					}
+				}
+			}
+			if !isNode {
+				continue // (it is handed an execution context: it runs while a template executes)
+			}
 		}
 		usesState := false
 		for _, b := range f.Blocks {
@@ -322,6 +336,40 @@ func ruleC11Renders(p *Prog, a *Anchors, r *Report) {
 		ifEx := Guarded(ret, throughPredicates(p, func(cnd ssa.Value, pol bool, sub func(ssa.Value) ssa.Value) bool {
 			return pol && loadsField(cnd, "tagIncludeNode", "ifExists")
 		}))
+		// … or where a helper of the package handed back "no template, no error", which it does only where if_exists is
+		// set (`tpl, err := node.lazyTemplate(ctx, name); … if tpl == nil { return nil }`)
+		if !ifEx {
+			ifExPred := throughPredicates(p, func(cnd ssa.Value, pol bool, sub func(ssa.Value) ssa.Value) bool {
+				return pol && loadsField(cnd, "tagIncludeNode", "ifExists")
+			})
+			ifEx = Guarded(ret, func(cnd ssa.Value, pol bool) bool {
+				x, eq, isNil := condIsNilTest(cnd)
+				if !isNil || eq != pol {
+					return false
+				}
+				ex, ok := x.(*ssa.Extract)
+				if !ok {
+					return false
+				}
+				hc, ok := ex.Tuple.(*ssa.Call)
+				if !ok || hc.Common().StaticCallee() == nil || !p.InPkg(hc.Common().StaticCallee()) || hc.Common().StaticCallee().Blocks == nil {
+					return false
+				}
+				h := hc.Common().StaticCallee()
+				hei := errorResultIndex(h)
+				found := false
+				for _, hr := range returnsOf(h) {
+					if ex.Index >= len(hr.Results) || hei < 0 || !isNilConst(res(hr, ex.Index)) || !isNilConst(res(hr, hei)) {
+						continue
+					}
+					found = true
+					if !Guarded(hr, ifExPred) {
+						return false
+					}
+				}
+				return found
+			})
+		}
 		if ifEx {
 			r.OK(key, p.InstrPos(ret), "nothing is rendered only where if_exists is set")
 		} else {
